@@ -24,7 +24,8 @@ Inductive exn :=
 | ExException            (* raise Exception(...) *)
 | ExDisconnected         (* autobahn.exception.Disconnected *)
 | ExPayloadExceeded      (* autobahn.exception.PayloadExceededError *)
-| ExAssertion.           (* AssertionError: create_xor_masker with a key that is not 4 octets (pure Python masker) *)
+| ExAssertion            (* AssertionError: create_xor_masker with a key that is not 4 octets (pure Python masker) *)
+| ExAttribute.           (* AttributeError: self.send_compressed is read before beginMessage ever assigned it *)
 
 Inductive ret :=
 | RNone                  (* returned None *)
@@ -55,8 +56,20 @@ Record scfg := mkScfg {
 Definition masks (c : scfg) : bool :=
   (negb (is_server c) && mask_client_frames c) || (is_server c && mask_server_frames c).
 
+(* data[:n] and data[n:] with an N index; structural on the list so that a huge index costs nothing
+   (= firstn / skipn (N.to_nat n), proved) *)
+Fixpoint take (n : N) (l : list N) : list N :=
+  match l with
+  | [] => []
+  | x :: r => if n =? 0 then [] else x :: take (n - 1) r
+  end.
+Fixpoint drop (n : N) (l : list N) : list N :=
+  match l with
+  | [] => []
+  | x :: r => if n =? 0 then l else drop (n - 1) r
+  end.
 (* data[i:j] for 0 <= i, j *)
-Definition slice (d : list N) (i j : N) : list N := firstn (N.to_nat (j - i)) (skipn (N.to_nat i) d).
+Definition slice (d : list N) (i j : N) : list N := take (j - i) (drop i d).
 
 (* ---- masker objects (xormasker.py) ---- *)
 Inductive masker :=
@@ -90,7 +103,7 @@ Definition build_frame (c : scfg) (ks : nat -> list N) (nk : nat)
     | Some plen =>
         if lenN payload <? 1 then None
         else Some (plen, concat (repeat payload (N.to_nat (plen / lenN payload)))
-                         ++ firstn (N.to_nat (plen mod lenN payload)) payload)
+                         ++ take (plen mod lenN payload) payload)
     | None => Some (lenN payload, payload)
     end in
   match prep with
@@ -155,18 +168,20 @@ Record ast := mkAst {
   s_flen : N;                       (* self.send_message_frame_length *)
   s_fmask : option (list N);        (* self.send_message_frame_mask *)
   s_masker : masker;                (* self.send_message_frame_masker *)
+  s_compressed_set : bool;          (* the attribute self.send_compressed exists (assigned by beginMessage; it is
+                                       not initialised in _connectionMade); its value is always False here *)
   next_key : nat;                   (* how many keys were drawn from random.getrandbits(32) *)
   prepared : list pmsg              (* PreparedMessage objects created so far (harness table) *)
 }.
 
-Definition ast0 : ast := mkAst POpen SGround 0 0 None (MNull 0) O [].
+Definition ast0 : ast := mkAst POpen SGround 0 0 None (MNull 0) false O [].
 
 Definition set_sstate (a : ast) (s : sendstate) : ast :=
-  mkAst (p_state a) s (s_opcode a) (s_flen a) (s_fmask a) (s_masker a) (next_key a) (prepared a).
+  mkAst (p_state a) s (s_opcode a) (s_flen a) (s_fmask a) (s_masker a) (s_compressed_set a) (next_key a) (prepared a).
 Definition set_nk (a : ast) (nk : nat) : ast :=
-  mkAst (p_state a) (s_state a) (s_opcode a) (s_flen a) (s_fmask a) (s_masker a) nk (prepared a).
+  mkAst (p_state a) (s_state a) (s_opcode a) (s_flen a) (s_fmask a) (s_masker a) (s_compressed_set a) nk (prepared a).
 Definition set_pstate (a : ast) (p : pstate) : ast :=
-  mkAst p (s_state a) (s_opcode a) (s_flen a) (s_fmask a) (s_masker a) (next_key a) (prepared a).
+  mkAst p (s_state a) (s_opcode a) (s_flen a) (s_fmask a) (s_masker a) (s_compressed_set a) (next_key a) (prepared a).
 
 Inductive op :=
 | OSendMessage (payload : list N) (is_binary : bool) (fragment_size : option Z) (sync : bool)
@@ -181,6 +196,9 @@ Inductive op :=
 | OSendMessageFrame (payload : list N) (sync : bool)
 | OSendPing (payload : list N)                           (* [] stands for None / b"" (both falsy) *)
 | OSendPong (payload : list N)
+| OPeerPing (payload : list N)                           (* the PEER's ping arrives: processControlFrame -> onPing ->
+                                                            "if self.state == STATE_OPEN: self.sendPong(payload)";
+                                                            the receive loop only gets here with <= 125 octets *)
 | OSendData (data : list N) (sync : bool) (chopsize : option Z)
 | OTick                                                  (* the pending txaio.call_later(_QUEUED_WRITE_DELAY, self._send) fires *)
 | OSetState (p : pstate).                                (* environment: the rest of the protocol assigns self.state *)
@@ -226,11 +244,11 @@ Definition begin_message_frame (c : scfg) (ks : nat -> list N) (a : ast) (length
     let mbit := match fmask with Some k => truthy k | None => false end in
     let mv := match fmask with Some k => if truthy k then k else [] | None => [] end in
     match encode_len len with
-    | None => (mkAst (p_state a) SInsideMessage (s_opcode a) len fmask mk nk' (prepared a), [],
+    | None => (mkAst (p_state a) SInsideMessage (s_opcode a) len fmask mk (s_compressed_set a) nk' (prepared a), [],
                RRaise ExException)                  (* unreachable: length <= max_len was checked *)
     | Some (l7, el) =>
         let b1 := N.lor (if mbit then 128 else 0) l7 in
-        (mkAst (p_state a) SInsideMessageFrame (s_opcode a) len fmask mk nk' (prepared a),
+        (mkAst (p_state a) SInsideMessageFrame (s_opcode a) len fmask mk (s_compressed_set a) nk' (prepared a),
          [mkSd (b0 :: b1 :: el ++ mv) false None], RNone)
     end.
 
@@ -238,6 +256,7 @@ Definition begin_message_frame (c : scfg) (ks : nat -> list N) (a : ast) (length
 Definition send_message_frame_data (c : scfg) (a : ast) (payload : list N) (sync : bool)
   : ast * list sdcall * ret :=
   if negb (is_open a) then (a, [], RNone)
+  else if negb (s_compressed_set a) then (a, [], RRaise ExAttribute)    (* "if not self.send_compressed:" comes first *)
   else if negb (sendstate_eqb (s_state a) SInsideMessageFrame)
   then (a, [], RRaise ExException)                  (* "sendMessageFrameData invalid in current sending state" *)
   else
@@ -246,11 +265,11 @@ Definition send_message_frame_data (c : scfg) (a : ast) (payload : list N) (sync
     let '(rest, pl) :=
       if s_flen a <? ptr + rl
       then (let l := (Z.of_N (s_flen a) - Z.of_N ptr)%Z in
-            ((- (Z.of_N rl - l))%Z, firstn (Z.to_nat l) payload))      (* payload[:l]; 0 <= l in reachable states *)
+            ((- (Z.of_N rl - l))%Z, take (Z.to_N l) payload))         (* payload[:l]; 0 <= l in reachable states *)
       else ((Z.of_N (s_flen a) - Z.of_N ptr - Z.of_N rl)%Z, payload) in
     let '(plm, mk') := masker_process (masker_flavour c) (s_masker a) pl in
     let st' := if s_flen a <=? masker_ptr mk' then SInsideMessage else s_state a in
-    (mkAst (p_state a) st' (s_opcode a) (s_flen a) (s_fmask a) mk' (next_key a) (prepared a),
+    (mkAst (p_state a) st' (s_opcode a) (s_flen a) (s_fmask a) mk' (s_compressed_set a) (next_key a) (prepared a),
      [mkSd plm sync None], RInt rest).
 
 (* PreparedMessage.__init__(payload, isBinary, applyMask = not factory.isServer, doNotCompress) *)
@@ -303,7 +322,7 @@ Definition api_step (c : scfg) (ks : nat -> list N) (a : ast) (o : op) : ast * l
       match prepare_message c ks (next_key a) payload is_binary with
       | (None, nk) => (set_nk a nk, [], RRaise ExException)
       | (Some pm, nk) =>
-          (mkAst (p_state a) (s_state a) (s_opcode a) (s_flen a) (s_fmask a) (s_masker a) nk (prepared a ++ [pm]),
+          (mkAst (p_state a) (s_state a) (s_opcode a) (s_flen a) (s_fmask a) (s_masker a) (s_compressed_set a) nk (prepared a ++ [pm]),
            [], RNone)
       end
   | OSendPrepared i =>
@@ -317,12 +336,13 @@ Definition api_step (c : scfg) (ks : nat -> list N) (a : ast) (o : op) : ast * l
       else if negb (sendstate_eqb (s_state a) SGround)
       then (a, [], RRaise ExException)               (* "beginMessage invalid in current sending state" *)
       else (mkAst (p_state a) SMessageBegin (if is_binary then 2 else 1) (s_flen a) (s_fmask a) (s_masker a)
-                  (next_key a) (prepared a), [], RNone)
+                  true (next_key a) (prepared a), [], RNone)      (* self.send_compressed = False *)
   | OBeginMessageFrame length => begin_message_frame c ks a length
   | OSendMessageFrameData payload sync => send_message_frame_data c a payload sync
   | OEndMessage =>
       (* the send_state check is commented out in the source: accepted in every send state *)
       if negb (is_open a) then (a, [], RNone)
+      else if negb (s_compressed_set a) then (a, [], RRaise ExAttribute)      (* "if self.send_compressed:" *)
       else let '(a1, calls, r) := do_send_frame c ks a 0 [] true 0 [] None None false in
            match r with
            | RNone => (set_sstate a1 SGround, calls, RNone)
@@ -330,6 +350,7 @@ Definition api_step (c : scfg) (ks : nat -> list N) (a : ast) (o : op) : ast * l
            end
   | OSendMessageFrame payload sync =>
       if negb (is_open a) then (a, [], RNone)
+      else if negb (s_compressed_set a) then (a, [], RRaise ExAttribute)      (* "if self.send_compressed:" *)
       else let '(a1, c1, r1) := begin_message_frame c ks a (Z.of_N (lenN payload)) in
            match r1 with
            | RNone => let '(a2, c2, r2) := send_message_frame_data c a1 payload sync in
@@ -340,7 +361,7 @@ Definition api_step (c : scfg) (ks : nat -> list N) (a : ast) (o : op) : ast * l
       if negb (is_open a) then (a, [], RNone)
       else if 125 <? lenN payload then (a, [], RRaise ExException)    (* "invalid payload for PING" *)
       else do_send_frame c ks a 9 payload true 0 [] None None false
-  | OSendPong payload =>
+  | OSendPong payload | OPeerPing payload =>
       if negb (is_open a) then (a, [], RNone)
       else if 125 <? lenN payload then (a, [], RRaise ExException)    (* "invalid payload for PONG" *)
       else do_send_frame c ks a 10 payload true 0 [] None None false
@@ -502,7 +523,7 @@ Definition spec_step (c : scfg) (prep : list (list N * bool)) (s : spst) (o : op
       match s with
       | SpInFrame b acc rem =>
           (* octets beyond the announced frame length are not sent (the call reports them) *)
-          let a := firstn (N.to_nat rem) p in
+          let a := take rem p in
           if rem <=? lenN p then Some (SpInMsg b (acc ++ a), prep, [])
           else Some (SpInFrame b (acc ++ a) (rem - lenN p), prep, [])
       | _ => None
@@ -521,7 +542,9 @@ Definition spec_step (c : scfg) (prep : list (list N * bool)) (s : spst) (o : op
       | SpInFrame _ _ _ => None
       | _ => if lenN p <=? 125 then Some (s, prep, [EvPing p]) else None
       end
-  | OSendPong p =>
+  | OSendPong p | OPeerPing p =>
+      (* an automatic pong is only accounted for when the peer's ping arrives at a frame boundary of our own
+         sending; see spec_step_full / C01_delivery_full_refuted for the other case *)
       match s with
       | SpInFrame _ _ _ => None
       | _ => if lenN p <=? 125 then Some (s, prep, [EvPong p]) else None
@@ -545,6 +568,31 @@ Fixpoint spec_run (c : scfg) (prep : list (list N * bool)) (s : spst) (ops : lis
       end
   end.
 
+(* the property at FULL strength: the peer may send a ping at ANY moment, also while the application is in the middle
+   of a frame of the streaming API; the answer (a pong with the same payload) has to go out without disturbing the
+   application's own frames *)
+Definition spec_step_full (c : scfg) (prep : list (list N * bool)) (s : spst) (o : op)
+  : option (spst * list (list N * bool) * list event) :=
+  match o, s with
+  | OPeerPing p, SpInFrame _ _ _ => if lenN p <=? 125 then Some (s, prep, [EvPong p]) else None
+  | _, _ => spec_step c prep s o
+  end.
+
+Fixpoint spec_run_full (c : scfg) (prep : list (list N * bool)) (s : spst) (ops : list op)
+  : option (spst * list (list N * bool) * list event) :=
+  match ops with
+  | [] => Some (s, prep, [])
+  | o :: r =>
+      match spec_step_full c prep s o with
+      | None => None
+      | Some (s1, prep1, e1) =>
+          match spec_run_full c prep1 s1 r with
+          | None => None
+          | Some (s2, prep2, e2) => Some (s2, prep2, e1 ++ e2)
+          end
+      end
+  end.
+
 (* the message still open at a frame boundary; None for SpInFrame is not meaningful (see theorems) *)
 Definition spec_open (s : spst) : option (bool * list N) :=
   match s with
@@ -552,6 +600,33 @@ Definition spec_open (s : spst) : option (bool * list N) :=
   | _ => None
   end.
 Definition spec_at_boundary (s : spst) : bool := match s with SpInFrame _ _ _ => false | _ => true end.
+
+(* ---- vocabulary of the theorems ---- *)
+(* what struct.pack("!I", random.getrandbits(32)) can return: 4 octets *)
+Definition keys_ok (ks : nat -> list N) : Prop := forall i, key_ok (ks i).
+
+(* the masking decision of the role policy for the frame that draws key number i *)
+Definition key_at (c : scfg) (ks : nat -> list N) (i : nat) : option (list N) :=
+  if masks c then Some (ks i) else None.
+
+(* the frames of ONE message whose payload is cut into [chunks]: the message opcode on the first frame, opcode 0
+   on the others, FIN on exactly the last one, RSV = 0, the frame number j masked as [mk j] says *)
+Fixpoint message_frames (mk : nat -> option (list N)) (j : nat) (first : bool) (opcode : N)
+    (chunks : list (list N)) : list frame :=
+  match chunks with
+  | [] => []
+  | ch :: rest =>
+      mkFrame (match rest with [] => true | _ => false end) 0 (if first then opcode else 0) (mk j) ch
+      :: message_frames mk (S j) false opcode rest
+  end.
+
+(* which reference-parser configurations a sender configuration is expected to satisfy *)
+Definition policy_ok (rc : rcfg) (c : scfg) : Prop :=
+  match rc_mask rc with
+  | MustMask => is_server c = false /\ mask_client_frames c = true
+  | MustNotMask => is_server c = true /\ mask_server_frames c = false
+  | AnyMask => True
+  end.
 
 (* defaults of WebSocketServerFactory / WebSocketClientFactory.resetProtocolOptions *)
 Definition default_cfg (server : bool) : scfg := mkScfg server true false true 0%Z 0 PurePython.
